@@ -179,6 +179,7 @@ def run(ctx):
     ctx.rule("R05.x", "context-manager model: _batch_call_watchers, batch_call_watchers, discard_events, _syncing and edit_constant interpreted abstractly with the body of the `with` supplied at the `yield` (62 cases: entry state x body ends normally / raises x nesting x queues replaced in the body x Parameter copies made in the body): flag, queues, syncing set and constant flags are, after the block, what they were before; the flush runs iff outermost, after the restore, also when the body raised", floor=1)
     ctx.rule("R05.y", "Event model: Event.__set__ interpreted abstractly on mode (set-reset / set / reset) x the assignment proper succeeds / is refused / a watcher raises: in set-reset the Event is assigned and then reset whatever happens, in set (held so by update/trigger while it is delivered) it is assigned and NOT reset, in reset it is only reset", floor=1)
     ctx.rule("R05.z", "dependency re-wiring survives a failing method: in the wrappers that call a depends(watch=True) method (_sync_caller, _async_caller) the re-wiring callback (which moves the watchers to a newly attached sub-object) runs before the method, or on every way out of it, so a method that raises does not leave the watchers on the detached object", floor=2)
+    ctx.rule("R05.w", "class-based context managers restore on every path: every attribute that __enter__ assigns is assigned again on every path through __exit__, which is what runs when the block raised", floor=1)
     ctx.rule("R05.a", "every may-raise node that can follow a TEMP-write of a transient dispatcher field "
                       "(without an intervening ORIG-write) lies in a try whose finally / re-raising catch-all "
                       "handler restores the field", floor=8)
@@ -320,6 +321,8 @@ def run(ctx):
         else:
             ctx.ok("R05.z", wf, fns[0], "the re-wiring callback runs before the method is called")
 
+    from checks.shared import class_cm_restores
+    class_cm_restores(ctx, "R05.w")
     from checks.shared import event_model
     event_model(ctx, "R05.y", "C05")
     from checks import update_model
